@@ -1,6 +1,6 @@
 CONSTANTS
   Bs = {3, 4, 6}
-  Ranks = {1, 2}
+  Ranks = {1, 2, 3}
   NG = 8
   MaxBits = 24
   MinKeyBits = 18
